@@ -122,10 +122,10 @@ check("C06", "concurrent gets, puts and deletes are linearizable", [
 ], [SIMFS, CLOCK, HASH, BLOOM, RAND, LOG, "Tier B: schedules enumerated exhaustively up to the preemption bound; data symbolic in every schedule"], [">2 clients", "compaction worker", "Close"])
 
 check("C07", "no race, crash or hang under concurrent use", [
-    ob("VerifC07_Pairs", "pkg/engine", "every unordered pair of thirteen EngineFacade entry points from two goroutines: no data race, panic, deadlock; both return",
-       "91 pairs of 13 entry points (put, get, delete, scan, tx, flush, stats, batch, is-deleted, read-only tx, tx with a refused commit, compaction, range scan + compaction stats), preemption bound 1", "preemption bound 2", q=P1, t={"preempt": 2, "budget_s": 1200}, no_validate=True, termination=True),
+    ob("VerifC07_Pairs", "pkg/engine", "every unordered pair of fourteen EngineFacade entry points from two goroutines: no data race, panic, deadlock; both return",
+       "105 pairs of 14 entry points (put, get, delete, scan, tx, flush, stats, batch, is-deleted, read-only tx, tx with a refused commit, compaction, range scan + compaction stats, range compaction), preemption bound 1", "preemption bound 2", q=P1, t={"preempt": 2, "budget_s": 1200}, no_validate=True, termination=True),
     ob("VerifC07_PairsOnAgedEngine", "pkg/engine", "the same pairs on an engine with a history: two flushed level-0 tables, one completed compaction cycle with output files, with or without a restart on those files (state that only exists after maintenance is shared too)",
-       "91 pairs x {running, restarted}, preemption bound 0 (the race detector is happens-before based and does not need a preemption to see an unsynchronised pair)", "preemption bound 1", q={"preempt": 0, "budget_s": 500}, t={"preempt": 1, "budget_s": 1200}, no_validate=True, termination=True),
+       "105 pairs x {running, restarted}, preemption bound 0 (the race detector is happens-before based and does not need a preemption to see an unsynchronised pair)", "preemption bound 1", q={"preempt": 0, "budget_s": 500}, t={"preempt": 1, "budget_s": 1200}, no_validate=True, termination=True),
     ob("VerifC07_RegistryPairs", "pkg/transaction", "every unordered pair of seven transaction-registry entry points (begin+use+finish, begin+abandon, use of an existing handle, Remove, CleanupConnection, the stale-transaction sweep, GracefulShutdown - not with itself) from two goroutines of the same or different connections, on a registry holding one transaction: no data race, panic, deadlock; both return",
        "27 pairs x {same, different connection}, preemption bound 0 (begin deadlines fire or not)", "preemption bound 1 (818 k schedules)", q={"preempt": 0, "budget_s": 300}, t={"preempt": 1, "budget_s": 900}, no_validate=True, termination=True),
     ob("VerifC07_StatsPairs", "pkg/stats", "every unordered pair of eight statistics entry points (operation/latency/error/byte/flush counters, GetStats, GetStatsFiltered, recovery stats) from two goroutines on the same or different operation types, lazily created counters present or not: no data race, no panic; both return",
